@@ -55,11 +55,18 @@ type Break struct {
 }
 
 type Case struct {
-	Msgs    []TMsg `json:"msgs"`
-	Sched   []int  `json:"sched,omitempty"` // interleaving choices; empty = sequential
-	SegKind int    `json:"seg_kind"`
-	Seg     []int  `json:"seg,omitempty"`
-	Break   *Break `json:"break,omitempty"`
+	Msgs    []TMsg  `json:"msgs"`
+	Sched   []int   `json:"sched,omitempty"` // interleaving choices; empty = sequential
+	SegKind int     `json:"seg_kind"`
+	Seg     []int   `json:"seg,omitempty"`
+	Break   *Break  `json:"break,omitempty"`
+	Local   []Local `json:"local,omitempty"` // Set Chunk Size packets this endpoint sends itself while reading
+}
+
+// Local: before reading message At, the reading endpoint writes a Set Chunk Size of its own.
+type Local struct {
+	At   int    `json:"at"`
+	Size uint32 `json:"size"`
 }
 
 // ---------------------------------------------------------------- trace -> bytes
@@ -272,6 +279,16 @@ func runCase(c Case) (st stats, err error) {
 	p := rtmp.NewProtocol(xport.RW{Reader: r, Writer: io.Discard})
 	var kept []*rtmp.Message
 	for i, w := range b.want {
+		for _, l := range c.Local {
+			if l.At == i {
+				// this endpoint announces a chunk size of its own for what it sends: the peer's chunk size is unaffected
+				scs := rtmp.NewSetChunkSize()
+				scs.ChunkSize = l.Size
+				if e := p.WritePacket(scs, 0); e != nil {
+					return st, fmt.Errorf("before message %d: WritePacket(SetChunkSize %d): %v", i, l.Size, e)
+				}
+			}
+		}
 		m, e := p.ReadMessage()
 		if e != nil {
 			return st, fmt.Errorf("message %d of %d (type=%d sid=%d ts=%d len=%d): ReadMessage: %v", i, len(b.want), w.Type, w.StreamID, w.Timestamp, len(w.Payload), e)
@@ -322,9 +339,18 @@ func genCase(t *rapid.T) Case {
 	cids := []uint32{}
 	for len(cids) < ncid {
 		var cid uint32
-		if rapid.IntRange(0, 3).Draw(t, "cidk") == 0 {
+		switch k := rapid.IntRange(0, 5).Draw(t, "cidk"); {
+		case k == 0:
 			cid = uint32(rapid.IntRange(2, 65599).Draw(t, "cidu"))
-		} else {
+		case k <= 2 && len(cids) > 0:
+			// a relative of an id already in use: ids whose encodings share bytes (+-1, +-64, +-256, one bit apart)
+			base := int(cids[rapid.IntRange(0, len(cids)-1).Draw(t, "cidbase")])
+			rel := rapid.SampledFrom([]int{1, -1, 64, -64, 256, -256, 512, -512, 255, -255, 0x100 << 4, -(0x100 << 4)}).Draw(t, "cidrel")
+			if rapid.IntRange(0, 3).Draw(t, "cidxor") == 0 {
+				rel = (base ^ (1 << uint(rapid.IntRange(0, 15).Draw(t, "cidbit")))) - base
+			}
+			cid = uint32(min(max(base+rel, 2), 65599))
+		default:
 			cid = rapid.SampledFrom(cidClasses).Draw(t, "cid")
 		}
 		dup := false
@@ -440,6 +466,9 @@ func genCase(t *rapid.T) Case {
 	case 0: // sequential
 	default:
 		c.Sched = rapid.SliceOfN(rapid.IntRange(0, 11), 1, 24).Draw(t, "sched")
+	}
+	for k := rapid.IntRange(0, 2).Draw(t, "nlocal"); k > 0 && rapid.Bool().Draw(t, "local"); k-- {
+		c.Local = append(c.Local, Local{At: rapid.IntRange(0, len(c.Msgs)).Draw(t, "localat"), Size: rapid.SampledFrom([]uint32{1, 64, 127, 129, 4096, 65536, 1 << 24}).Draw(t, "localsize")})
 	}
 	c.SegKind = rapid.IntRange(0, xport.SegKinds-1).Draw(t, "segk")
 	if c.SegKind == 2 || c.SegKind == 3 {
